@@ -138,9 +138,14 @@ func (s *httpsService) Handle(ctx context.Context, conn net.Conn) error {
 
 	tlsConn := tls.Server(conn, &tls.Config{
 		Certificates: []tls.Certificate{},
-		GetCertificate: func(hello *tls.ClientHelloInfo) (*tls.Certificate, error) {
+		// called for every parsed hello, before the version and compression
+		// checks that may end the handshake
+		GetConfigForClient: func(hello *tls.ClientHelloInfo) (*tls.Config, error) {
 			ja3Digest = hello.JA3Digest()
 			serverName = hello.ServerName
+			return nil, nil
+		},
+		GetCertificate: func(hello *tls.ClientHelloInfo) (*tls.Certificate, error) {
 			return s.getCertificate(hello)
 		},
 	})
